@@ -156,8 +156,17 @@ def _filter_shape(r, filt):
     else:
         r.unknown("C20.filter", K + ":none-is-plain-fix", "no early return on a missing dictionary recognised")
 
+    single = {}
+    for n in walk_function(fn):
+        if isinstance(n, ast.Assign) and len(n.targets) == 1 and isinstance(n.targets[0], ast.Name):
+            single.setdefault(n.targets[0].id, []).append(n.value)
+    single = {k: v[0] for k, v in single.items() if len(v) == 1}
+
     def rooted_lookup(e):
-        """True if e is <d>[...]...[self.unique_id] (the list for this rule)."""
+        """True if e is <d>[...]...[self.unique_id] (the list for this rule), possibly through a
+        singly-assigned local."""
+        if isinstance(e, ast.Name) and e.id in single:
+            e = single[e.id]
         if not isinstance(e, ast.Subscript):
             return False
         last = e.slice
@@ -190,6 +199,33 @@ def _filter_shape(r, filt):
             n_app = 0
             for n in walk_function(fn):
                 if isinstance(n, ast.Call) and isinstance(n.func, ast.Attribute) and isinstance(n.func.value, ast.Name) and n.func.value.id == v.id:
+                    # order / multiplicity: the kept list must grow while walking self.violations itself.
+                    # Growing it inside a loop over (something derived from) the user's dictionary makes the
+                    # selection follow the order and repetitions of the --fix_only file; Rule.fix and
+                    # vhdlFile.update splice in reverse list order and rely on the analysed (ascending) order.
+                    user_loops = []
+                    par = n
+                    while par is not None and par is not fn:
+                        par = getattr(par, "_parent", None)
+                        if isinstance(par, ast.For):
+                            it = par.iter
+                            src = it
+                            if isinstance(it, ast.Name):
+                                for a2 in walk_function(fn):
+                                    if isinstance(a2, ast.Assign) and len(a2.targets) == 1 and isinstance(a2.targets[0], ast.Name) and a2.targets[0].id == it.id:
+                                        src = a2.value
+                            if any(isinstance(x, ast.Name) and x.id == d for x in ast.walk(src)) and not _self_attr(it, "violations"):
+                                user_loops.append(par)
+                    if user_loops:
+                        okshape = False
+                        r.fail(
+                            "C20.filter",
+                            K + ":kept-order-follows-selection",
+                            "the kept violations are collected while iterating `%s` (the --fix_only data): their order and multiplicity follow the user's list, "
+                            "but the fixes are spliced back in reverse list order and need the analysed order with each violation once" % norm(user_loops[0].iter),
+                            filt.loc(n),
+                        )
+                        continue
                     if n.func.attr != "append" or len(n.args) != 1 or not isinstance(n.args[0], ast.Name):
                         okshape = False
                         r.unknown("C20.filter", K + ":kept-list:" + norm(n), "unrecognised construction of the kept list")
